@@ -354,7 +354,7 @@ func duplicateFullTrigger(
 		// duplicated onto the call-site result without a controller, i.e., they are always active.
 		dupTrigger := annotation.FullTrigger{Producer: trigger.Producer, Consumer: trigger.Consumer}
 		if isReturnConsumer {
-			dupTrigger.Consumer = annotation.DuplicateReturnConsumer(trigger.Consumer, pass.PosToLocation(callExpr.Pos()))
+			dupTrigger.Consumer = annotation.DuplicateReturnConsumer(trigger.Consumer, pass.CallSiteLocation(callExpr))
 		}
 		return dupTrigger
 	}
@@ -380,7 +380,7 @@ func duplicateFullTrigger(
 		dupTrigger.Producer = annotation.DuplicateParamProducer(trigger.Producer, argLoc)
 	}
 	if isReturnConsumer {
-		retLoc := pass.PosToLocation(callExpr.Pos())
+		retLoc := pass.CallSiteLocation(callExpr)
 		dupTrigger.Consumer = annotation.DuplicateReturnConsumer(trigger.Consumer, retLoc)
 		// Set up the site that controls the controlled full trigger to be created
 		c := annotation.NewCallSiteParamKey(callee, 0, argLoc)
